@@ -169,6 +169,15 @@ pub fn one_case(rng: &mut Rng, sink: &mut Sink, emit: bool) {
     if emit {
         sink.emit(format!("tree echo {}", original.wire()), original.wire());
     }
+    // specification side of C01 (Model/SerTokens.lean): every generated tree is in the
+    // round-trip domain, and the canonical token rendering is what to_string returns
+    sink.emit(vocab.wire(), "ok".to_string());
+    sink.emit(format!("representable {} {}", if fragment { 1 } else { 0 }, original.wire()), "true".to_string());
+    let rendered = match xot.to_string(root) {
+        Ok(s) => format!("ok {}", crate::common::enc(&s)),
+        Err(e) => crate::suite_ser::err_str(&e),
+    };
+    sink.emit(format!("sertokens {}", original.wire()), rendered);
     let s = match xot.to_string(root) {
         Ok(s) => s,
         Err(xot::Error::MissingPrefix(_)) => {
@@ -213,9 +222,198 @@ pub fn one_case(rng: &mut Rng, sink: &mut Sink, emit: bool) {
     }
 }
 
+fn at_mut<'a>(t: &'a mut GTree, p: &[usize]) -> &'a mut GTree {
+    let mut cur = t;
+    for &i in p {
+        cur = &mut cur.kids[i];
+    }
+    cur
+}
+
+fn paths_where(t: &GTree, pred: &dyn Fn(&GTree) -> bool) -> Vec<Vec<usize>> {
+    t.paths().into_iter().filter(|p| pred(t.at(p).unwrap())).collect()
+}
+
+/// One mutation that takes a generated tree out of the round-trip domain; `None` if the tree
+/// offers no place for it.
+fn mutate(rng: &mut Rng, t: &mut GTree, fragment: bool) -> Option<&'static str> {
+    let is_el = |n: &GTree| matches!(n.v, GValue::Element(_));
+    let holders: Vec<Vec<usize>> = if fragment {
+        paths_where(t, &|n| matches!(n.v, GValue::Element(_) | GValue::Document))
+    } else {
+        paths_where(t, &is_el)
+    };
+    if holders.is_empty() {
+        return None;
+    }
+    match rng.below(9) {
+        0 => {
+            // an empty text node
+            let texts = paths_where(t, &|n| matches!(n.v, GValue::Text(_)));
+            if !texts.is_empty() && rng.chance(1, 2) {
+                let p = rng.pick(&texts).clone();
+                at_mut(t, &p).v = GValue::Text(String::new());
+            } else {
+                let p = rng.pick(&holders).clone();
+                at_mut(t, &p).kids.push(GTree::leaf(GValue::Text(String::new())));
+            }
+            Some("empty-text")
+        }
+        1 => {
+            // two adjacent text nodes
+            let p = rng.pick(&holders).clone();
+            let h = at_mut(t, &p);
+            h.kids.push(GTree::leaf(GValue::Text("a".to_string())));
+            h.kids.push(GTree::leaf(GValue::Text("b".to_string())));
+            Some("adjacent-text")
+        }
+        2 => {
+            let p = rng.pick(&holders).clone();
+            let c = rng.pick(&["a--b", "a-", "-", "--"]).to_string();
+            at_mut(t, &p).kids.push(GTree::leaf(GValue::Comment(c)));
+            Some("comment-dashes")
+        }
+        3 => {
+            let p = rng.pick(&holders).clone();
+            let d = rng.pick(&[" d", "", "a?>b", "\td"]).to_string();
+            at_mut(t, &p).kids.push(GTree::leaf(GValue::PI(17, Some(d))));
+            Some("pi-data")
+        }
+        4 => {
+            // a character outside the XML Char production
+            let c = *rng.pick(&['\u{1}', '\u{b}', '\u{fffe}', '\u{ffff}', '\u{0}']);
+            let texts = paths_where(t, &|n| matches!(n.v, GValue::Text(_) | GValue::Attribute(..) | GValue::Comment(_)));
+            let texts: Vec<Vec<usize>> = texts.into_iter().filter(|p| !matches!(t.at(p).unwrap().v, GValue::Attribute(1, _))).collect();
+            if texts.is_empty() {
+                return None;
+            }
+            let p = rng.pick(&texts).clone();
+            match &mut at_mut(t, &p).v {
+                GValue::Text(s) | GValue::Attribute(_, s) | GValue::Comment(s) => s.push(c),
+                _ => {}
+            }
+            Some("non-xml-char")
+        }
+        5 => {
+            // a declaration that binds the XML namespace: never written
+            let els = paths_where(t, &is_el);
+            if els.is_empty() {
+                return None;
+            }
+            let p = rng.pick(&els).clone();
+            let e = at_mut(t, &p);
+            if e.kids.iter().any(|k| matches!(k.v, GValue::Namespace(3, _))) {
+                return None;
+            }
+            e.kids.insert(0, GTree::leaf(GValue::Namespace(3, 1)));
+            Some("xml-namespace-declared")
+        }
+        6 => {
+            // xml:id not normalised, or used twice
+            let els = paths_where(t, &|n| matches!(n.v, GValue::Element(_)) && !n.kids.iter().any(|k| matches!(k.v, GValue::Attribute(1, _))));
+            if els.is_empty() {
+                return None;
+            }
+            let put = |e: &mut GTree, v: &str| {
+                let at = e.kids.iter().take_while(|k| matches!(k.v, GValue::Namespace(..))).count();
+                e.kids.insert(at, GTree::leaf(GValue::Attribute(1, v.to_string())));
+            };
+            if els.len() >= 2 && rng.chance(1, 2) {
+                // later node first: inserting a child shifts the paths below the earlier one
+                put(at_mut(t, &els[1]), "dup");
+                put(at_mut(t, &els[0]), "dup");
+                Some("xml-id-twice")
+            } else {
+                let p = rng.pick(&els).clone();
+                let v: &str = *rng.pick(&[" a", "a ", "a  b", "a\tb"]);
+                put(at_mut(t, &p), v);
+                Some("xml-id-not-normalised")
+            }
+        }
+        7 => {
+            if fragment {
+                return None;
+            }
+            match rng.below(3) {
+                0 => t.kids.push(GTree::leaf(GValue::Text("x".to_string()))),
+                1 => t.kids.push(GTree::leaf(GValue::Element(2))),
+                _ => t.kids.retain(|k| !matches!(k.v, GValue::Element(_))),
+            }
+            Some("document-top-level")
+        }
+        _ => {
+            // an attribute or a child of a leaf kind: not buildable / not a sound tree
+            let cs = paths_where(t, &|n| matches!(n.v, GValue::Comment(_)));
+            if cs.is_empty() {
+                return None;
+            }
+            let p = rng.pick(&cs).clone();
+            at_mut(t, &p).kids.push(GTree::leaf(GValue::Text("x".to_string())));
+            Some("child-of-comment")
+        }
+    }
+}
+
+/// A tree one step outside the round-trip domain: the model's `Representable` must agree with
+/// what the implementation does (serialise, reparse, compare the read-backs).
+fn mutated_case(rng: &mut Rng, sink: &mut Sink) {
+    let mut xot = Xot::new();
+    let mut vocab = Vocab::standard(&mut xot);
+    let mut cfg = GenCfg::default_cfg();
+    cfg.max_depth = 2 + rng.below(2);
+    let fragment = rng.chance(1, 3);
+    let mut t = if fragment { gen_fragment(rng, &cfg) } else { gen_document(rng, &cfg) };
+    for k in t.kids.iter_mut() {
+        if let GValue::Element(_) = k.v {
+            let have: Vec<usize> = k.kids.iter().filter_map(|c| if let GValue::Namespace(p, _) = c.v { Some(p) } else { None }).collect();
+            let mut at = 0;
+            for (p, ns) in [(2usize, NS_A), (3, NS_B), (4, NS_C)] {
+                if !have.contains(&p) {
+                    k.kids.insert(at, GTree::leaf(GValue::Namespace(p, ns)));
+                    at += 1;
+                }
+            }
+        }
+    }
+    let kind = match mutate(rng, &mut t, fragment) {
+        Some(k) => k,
+        None => {
+            sink.stat("rt.mutation-not-applicable");
+            return;
+        }
+    };
+    let root = match crate::common::guarded(|| build(&mut xot, &vocab, &t, true)) {
+        Some(Ok(r)) => r,
+        _ => {
+            sink.stat(&format!("rt.mutated.{}.build-refused", kind));
+            return;
+        }
+    };
+    let original = read_tree(&xot, &mut vocab, root);
+    let s = match xot.to_string(root) {
+        Ok(s) => s,
+        Err(_) => {
+            sink.stat(&format!("rt.mutated.{}.serialise-refused", kind));
+            return;
+        }
+    };
+    let reparsed = if fragment { xot.parse_fragment(&s) } else { xot.parse(&s) };
+    let same = match reparsed {
+        Err(_) => false,
+        Ok(r2) => read_tree(&xot, &mut vocab, r2) == original,
+    };
+    sink.stat(&format!("rt.mutated.{}.{}", kind, if same { "round-trips" } else { "lost" }));
+    // the vocabulary as it was when the tree was built (the reparse may have interned more)
+    sink.emit(Vocab::standard(&mut Xot::new()).wire(), "ok".to_string());
+    sink.emit(format!("representable {} {}", if fragment { 1 } else { 0 }, original.wire()), if same { "true" } else { "false" }.to_string());
+}
+
 pub fn run(seed: u64, count: usize, _tier: &str, sink: &mut Sink) {
     let mut rng = Rng::new(seed ^ 0x0C01);
     for i in 0..count {
         one_case(&mut rng, sink, i % 50 == 0);
+        if i % 4 == 0 {
+            mutated_case(&mut rng, sink);
+        }
     }
 }
